@@ -61,6 +61,14 @@ int main(int argc, char **argv) {
       c.st.cls("mantissa/exponent lattice");
       if (e % 16 == 0) c.st.sample(fmt("unit %s: tau = +-m*2^%d and T = m*2^%d for the 16 four-bit mantissas m: positivity, adjacent-double monotonicity, strictness at 16 ulp, backward = g*T'(tau), inverse round trips", unit.c_str(), e, e));
     }
+    // (1b) approach lattices: c +- m*2^e towards each critical point c (covers windows such as |T-1| < 1e-3 that the consecutive-double
+    //      neighbourhoods (width ~1e-11) and the coarse lattice both miss)
+    { const double tcs[5] = {0.0, 1.0, -1.0, 1e6, -1e6}, Tcs[3] = {1.0, 1e-6, 1e6};
+      for (int e = -52; e <= -1; ++e) { std::string unit; if (!unit_begin(fmt("approach/%d", e), unit)) continue; Chk k(c, unit);
+        for (int mi = 0; mi < 16; ++mi) for (double sgn : {1.0, -1.0}) { const double d = sgn * std::ldexp(1.0 + mi / 16.0, e);
+          for (double cc : tcs) { double v = cc + d * std::max(1.0, std::fabs(cc)); if (std::fabs(v) <= 1e6) k.tau_point(v); }
+          for (double cc : Tcs) { double v = cc + d * cc; if (v >= 1e-6 && v <= 1e6) k.T_point(v); } }
+        c.st.cls("approach lattices c +- m*2^e"); } }
     // (2) every double within NEI ulps of the critical points
     struct Nb { double centre; bool is_tau; const char *name; };
     const Nb nbs[] = {{0.0, true, "tau around 0 (branch switch, denormals, both signs)"}, {1.0, true, "tau around 1"}, {-1.0, true, "tau around -1"}, {1e6, true, "tau around 1e6"}, {-1e6, true, "tau around -1e6"}, {1.0, false, "T around 1 (toTau branch switch)"}, {1e-6, false, "T around 1e-6"}, {1e6, false, "T around 1e6"}};
